@@ -588,22 +588,22 @@ func reportFailure(bin, dir, prop, tier string, base uint64, d famDesc, f failur
 
 func writeEvidence(prop, tier string, base uint64, results []*famResult, wall float64, viol int) {
 	type famEv struct {
-		Family            string         `json:"family"`
-		Runs              int            `json:"runs"`
-		Nontrivial        int            `json:"nontrivial_runs"`
-		Distinct          int            `json:"distinct_nontrivial"`
-		Steps             int64          `json:"scheduler_steps"`
-		SimSeconds        float64        `json:"simulated_seconds"`
-		RunsPerHour       float64        `json:"runs_per_hour"`
-		FaultsFired       map[string]int `json:"faults_fired"`
-		Probes            map[string]int `json:"reach_probes"`
-		States            map[string]int `json:"abstract_states"`
-		Aborts            map[string]int `json:"aborted_runs"`
-		Real              []string       `json:"real_components"`
-		Stub              []string       `json:"stubbed_components"`
-		Rule              string         `json:"rule"`
-		Failures          int            `json:"failing_runs"`
-		WallS             float64        `json:"wall_s"`
+		Family      string         `json:"family"`
+		Runs        int            `json:"runs"`
+		Nontrivial  int            `json:"nontrivial_runs"`
+		Distinct    int            `json:"distinct_nontrivial"`
+		Steps       int64          `json:"scheduler_steps"`
+		SimSeconds  float64        `json:"simulated_seconds"`
+		RunsPerHour float64        `json:"runs_per_hour"`
+		FaultsFired map[string]int `json:"faults_fired"`
+		Probes      map[string]int `json:"reach_probes"`
+		States      map[string]int `json:"abstract_states"`
+		Aborts      map[string]int `json:"aborted_runs"`
+		Real        []string       `json:"real_components"`
+		Stub        []string       `json:"stubbed_components"`
+		Rule        string         `json:"rule"`
+		Failures    int            `json:"failing_runs"`
+		WallS       float64        `json:"wall_s"`
 	}
 	level := "exploration"
 	evals, distinct := 0, 0
